@@ -9,7 +9,7 @@ ID = "C04"
 ML = "mC04"
 HARNESS = "harness/C04.c"
 SRCS = None
-EXCLUDE = ["renderbuffer.c"]
+EXCLUDE = ["renderbuffer.c", "mockterm.c"]   # both are #included by the harness
 DRIVER_PARTS = ["rb_common.ml", "drv_C04.ml"]
 LEVEL = "proof"
 CASE_TIMEOUT = 0.3
@@ -21,7 +21,9 @@ RULE = ("case = buffer size + drawing program (as for C03) + a flush, either `fl
         "compiled linemask_to_char table itself; (2) exhaustive: all 255 line masks produced on the centre cell of a 3x3 "
         "buffer by four half-segments of every style; (3) exhaustive: all programs of <= 3 ops over a 21-op alphabet on a "
         "2x6 buffer; (4) every text of a width-mix family cut at every column by char / erase / skip / text / clip / mask; "
-        "(5) random C03 programs; (6) chars of width 0 and 2.  Non-trivial = something was sent to the terminal; "
+        "(5) random C03 programs; (6) chars of width 0 and 2; (7) line runs of 86..200 cells (beyond the 256-byte "
+        "scratch buffer) and directly adjacent erase spans.  A third of the mock flushes run on a terminal whose erasech(MAYBE) "
+        "leaves the cursor in place (flm), the other legal driver behaviour.  Non-trivial = something was sent to the terminal; "
         "distinct = distinct (op kinds, shape of the operation log).")
 ASSUMPTIONS = ["the terminal advances by the library's own width function (stated in the property); modelled after src/mockterm.c",
                "terminal at least as large as the buffer; no int overflow",
@@ -41,9 +43,11 @@ ALPHABET = [
 
 
 def fl(rnd, L, C, x=False):
+    """a flush op: onto the mock terminal (fl), onto a terminal whose erasech(MAYBE) does not move the
+    cursor (flm; both behaviours are legal for a driver), or through the xterm driver (flx)"""
     if x:
         return "flx %d %d" % (L + rnd.choice([0, 0, 1]), C + rnd.choice([0, 0, 2]))
-    return "fl %d %d %d %d %s" % (L + rnd.choice([0, 0, 1, 2]), C + rnd.choice([0, 0, 1, 3]),
+    return "%s %d %d %d %d %s" % (rnd.choice(["fl", "fl", "flm"]), L + rnd.choice([0, 0, 1, 2]), C + rnd.choice([0, 0, 1, 3]),
                                   rnd.randint(-1, L), rnd.randint(-1, C), rbgen.rand_pen(rnd))
 
 
@@ -64,6 +68,21 @@ def gen(tier, seed, info):
         n += 1
         yield rbgen.case_line(3, 3, ops + ["D", fl(rnd, 3, 3), "D"])
     info["mask_cases"] = n
+    # (2b) long runs: line / char / erase runs longer than the 256-byte scratch buffer holds, adjacent erases
+    nlong = 0
+    for C in (86, 90, 130, 172, 200):
+        for prog in (["hl 0 0 %d 1 3" % (C - 1)],
+                     ["hl 0 1 %d 2 0" % (C - 2), "vl 0 1 %d 1 3" % (C // 2)],
+                     ["pen f3", "hl 0 0 %d 3 3" % (C - 1), "cha 0 %d 78" % (C // 3)],
+                     ["hl 0 0 %d 1 3" % (C - 1), "pen b2", "hl 1 0 %d 1 3" % (C - 1), "era 1 %d 5" % (C - 20)]):
+            nlong += 1
+            yield rbgen.case_line(2, C, prog + [fl(rnd, 2, C), "D"])
+    for prog in (["era 0 0 3", "pen b1", "era 0 3 2"], ["era 0 0 6", "pen f2", "era 0 2 2"],
+                 ["pen b4", "era 0 1 2", "pen b5", "era 0 3 2", "txa 0 5 61"], ["era 0 0 2", "pen u1", "era 0 2 2", "pen -", "era 0 4 2"]):
+        for kind in ("fl", "flm"):
+            nlong += 1
+            yield rbgen.case_line(1, 6, prog + ["%s 1 6 0 0 -" % kind, "D"])
+    info["long_run_and_adjacent_erase_cases"] = nlong
     # (3) small programs
     m = 0
     for k in (1, 2, 3):
@@ -130,7 +149,7 @@ def gen(tier, seed, info):
     info["op_kinds"] = kinds
 
 
-ARITY = dict(rbgen.ARITY, fl=5, flx=2, lct=0)
+ARITY = dict(rbgen.ARITY, fl=5, flm=5, flx=2, lct=0)
 
 
 def classify(case, obs):
@@ -154,7 +173,7 @@ def terminal_fits(case):
     t = case.split()
     L, C = int(t[0]), int(t[1])
     for i, x in enumerate(t):
-        if x in ("fl", "flx") and (int(t[i + 1]) < L or int(t[i + 2]) < C):
+        if x in ("fl", "flm", "flx") and (int(t[i + 1]) < L or int(t[i + 2]) < C):
             return False
     return L >= 1 and C >= 1
 
